@@ -15,7 +15,7 @@ Import ListNotations.
    quadratic_componentwise_simultaneous_refuted_example in Proofs/RootsRoundEx.v (b = 0: the two returned values do not sum to 0). *)
 From Coq Require Import Reals.
 From Coquelicot Require Import Complex.
-From OV Require Import Proofs.RootsRound Proofs.RootsRoundEx Proofs.RootsRoundFwd.
+From OV Require Import Proofs.RootsRound Proofs.RootsRoundEx Proofs.RootsRoundFwd Proofs.RootsRoundCubic.
 
 (* degree 1: the returned value is the exact root of c1 x + c0 (1 + d), |d| <= eps (one negation, exact; one division) *)
 Theorem linear_root_backward_error : forall (eps : R) (O : RoundOps) (c0 c1 : C),
@@ -181,3 +181,31 @@ Print Assumptions quadratic_forward_error_dominant.
 Example quadratic_forward_error_dominant_nonvacuous :
   RtoC 1 <> RtoC 0 /\ (8 * (Cmod (RtoC 1) * Cmod (RtoC 2)) <= Cmod (RtoC (-5)) * Cmod (RtoC (-5)))%R.
 Proof. exact forward_dominant_nonvacuous. Qed.
+
+(* ---- degree 3, the triple-root branch only (Proofs/RootsRoundCubic.v): when the COMPUTED d0 = fl(b^2 - 3ac) and
+   d1 = fl(2b^3 - 9abc + 27a^2 d) are both zero ([c_d0], [c_d1]: every operation rounded) cubic_solve returns three copies of
+   r = fl(-b / fl(3a)) and r has a small residual, although the cubic need not be a perfect cube.  The Cardano branch -- where the
+   recorded class KF-C10-F lives -- is not covered. *)
+Theorem cubic_triple_branch_residual : forall (eps : R) (O : RoundOps) (a b c d : C),
+  (0 <= eps <= / 100)%R -> std_model eps O -> a <> RtoC 0 -> c_d0 O a b c = RtoC 0 -> c_d1 O a b c d = RtoC 0 ->
+  cubic_solve (RoundRAo eps O) a b c d = Ok [c_r O a b; c_r O a b; c_r O a b] /\
+  (Cmod (a * c_r O a b * c_r O a b * c_r O a b + b * c_r O a b * c_r O a b + c * c_r O a b + d)%C
+   <= 16 * eps * (Cmod a * Cmod (c_r O a b) * Cmod (c_r O a b) * Cmod (c_r O a b)
+                  + Cmod b * Cmod (c_r O a b) * Cmod (c_r O a b) + Cmod c * Cmod (c_r O a b) + Cmod d))%R.
+Proof. intros eps O a b c d. exact (cubic_triple_branch_lemma eps O a b c d). Qed.
+Check cubic_triple_branch_residual : forall (eps : R) (O : RoundOps) (a b c d : C),
+  (0 <= eps <= / 100)%R -> std_model eps O -> a <> RtoC 0 -> c_d0 O a b c = RtoC 0 -> c_d1 O a b c d = RtoC 0 ->
+  cubic_solve (RoundRAo eps O) a b c d = Ok [c_r O a b; c_r O a b; c_r O a b] /\
+  (Cmod (a * c_r O a b * c_r O a b * c_r O a b + b * c_r O a b * c_r O a b + c * c_r O a b + d)%C
+   <= 16 * eps * (Cmod a * Cmod (c_r O a b) * Cmod (c_r O a b) * Cmod (c_r O a b)
+                  + Cmod b * Cmod (c_r O a b) * Cmod (c_r O a b) + Cmod c * Cmod (c_r O a b) + Cmod d))%R.
+Print Assumptions cubic_triple_branch_residual.
+(* x^3 - 3x^2 + (3/f) x + (2f - 3), f = 1 + 1/1024, in the perturbing arithmetic: computed d0 = d1 = 0, the value 1 is returned,
+   and it is NOT a root (the cubic is not a perfect cube) *)
+Example cubic_triple_branch_residual_nonvacuous :
+  let e := (/ 1024)%R in let f := (1 + e)%R in
+  let a := RtoC 1 in let b := RtoC (-3) in let c := RtoC (3 / f) in let d := RtoC (2 * f - 3) in
+  (0 <= e <= / 100)%R /\ std_model e (pert_ops e) /\ a <> RtoC 0 /\
+  c_d0 (pert_ops e) a b c = RtoC 0 /\ c_d1 (pert_ops e) a b c d = RtoC 0 /\
+  c_r (pert_ops e) a b = RtoC 1 /\ cval a b c d (RtoC 1) <> RtoC 0.
+Proof. exact cubic_triple_branch_nonvacuous_lemma. Qed.
